@@ -3,7 +3,7 @@
    granularity; per step the replies (with the connection they arrived on) and the
    events (with the connection whose address they carry). *)
 From HT Require Import C03.Model.
-Open Scope N_scope.
+Local Open Scope N_scope.
 
 Record oev := mkOE { oe_conn : N; oe_type : N; oe_arg : N; oe_sid : N; oe_dport : N }.
 Definition ostep := (list (N * N) * list oev)%type.
